@@ -191,6 +191,11 @@ pub fn decode_all(ids: &[u64]) -> Result<Vec<MCell>, u64> {
 /// another face / quintant (another curve orientation), the same face, quintant and position number at another resolution, its
 /// parent or its first child. A pure function cannot be affected; a last-value memo with an incomplete key is.
 pub fn prime_history(rng: &mut crate::rng::Rng, c: MCell) {
+    prime_history_with(rng, c, Some(1), false)
+}
+
+/// as `prime_history`, asking for the relative's boundary with the given options (those of the call about to be judged)
+pub fn prime_history_with(rng: &mut crate::rng::Rng, c: MCell, segments: Option<i32>, closed: bool) {
     if c.res < 2 {
         return;
     }
@@ -218,7 +223,7 @@ pub fn prime_history(rng: &mut crate::rng::Rng, c: MCell) {
     };
     let id = encode(relative);
     let _ = guard(|| a5::cell_to_lonlat(id));
-    if rng.chance(0.5) {
-        let _ = guard(|| a5::cell_to_boundary(id, Some(a5::core::cell::CellToBoundaryOptions { closed_ring: false, segments: Some(1) })));
+    if rng.chance(0.6) {
+        let _ = guard(|| a5::cell_to_boundary(id, Some(a5::core::cell::CellToBoundaryOptions { closed_ring: closed, segments })));
     }
 }
